@@ -65,6 +65,22 @@ def interesting(rng, w):
     if c < 0.65: return 1 << (w - 1)          # most negative for signed fields
     return rng.getrandbits(w)
 
+def decimal_identity(rng):
+    """a 30-bit identity with the decimal structure ITU-R M.585 gives to station classes (a
+    maintainer's heuristic would key on these digits): 99MIDaXXX aids, 111MIDXXX aircraft, 00MIDXXXX
+    coast, 0MIDXXXXX groups, 970/972/974 devices, 98MIDXXXX craft, 8MIDXXXXX handhelds, plain ships"""
+    mid = rng.randrange(201, 776)
+    c = rng.randrange(9)
+    if c == 0: return 990000000 + mid * 10000 + rng.randrange(10) * 1000 + rng.randrange(1000)
+    if c == 1: return 111000000 + mid * 1000 + rng.randrange(1000)
+    if c == 2: return mid * 10000 + rng.randrange(10000)
+    if c == 3: return mid * 100000 + rng.randrange(100000)
+    if c == 4: return rng.choice([970, 972, 974]) * 1000000 + rng.randrange(1000000)
+    if c == 5: return 980000000 + mid * 10000 + rng.randrange(10000)
+    if c == 6: return 800000000 + mid * 100000 + rng.randrange(100000)
+    if c == 7: return rng.randrange(10 ** 9)
+    return mid * 1000000 + rng.randrange(1000000)
+
 def bits_of(fields, values):
     out = []
     for name, w in fields:
@@ -79,6 +95,8 @@ def rand_values(rng, fields, mode='mixed'):
         if mode == 'random': vals[name] = rng.getrandbits(w)
         elif mode == 'zeros': vals[name] = 0
         elif mode == 'ones': vals[name] = (1 << w) - 1
+        elif mode == 'decimal':      # plausible traffic: identities with decimal structure, other fields random
+            vals[name] = decimal_identity(rng) if w == 30 else rng.getrandbits(w)
         else: vals[name] = interesting(rng, w) if rng.random() < 0.5 else rng.getrandbits(w)
     return vals
 
